@@ -6,7 +6,7 @@ LEVEL_TEXT = ('bounded symbolic execution (CrossHair/z3) of ForwardOptions.recur
               'list construction of the real Link.__init__, DynamicLink._fill_options and option_list '
               'de-duplication over every DAG of up to 4 static libraries (adjacency booleans) and '
               'every user library list of 1-2 entries: closure, dependants-before-dependencies order, '
-              'forwarded link options; and of patchelf.local_rpath / BasePath.relpath($ORIGIN) for '
+              'forwarded link options (single- and multi-word) intact; and of patchelf.local_rpath / BasePath.relpath($ORIGIN) for '
               'symbolic output and library directories')
 LEVEL_NOTE = ('the real Link.__init__ is run on a stand-in `self` up to the point where the library '
               'list exists (it stops at "need at least one source file"); linkers/compilers are not '
